@@ -2,6 +2,7 @@ SPECIFICATION Spec
 CONSTANTS
   MaxCaches = 4
   Export = TRUE
+  MaxOps = 2
 INVARIANT MonitorOK
 INVARIANT Complete
 CHECK_DEADLOCK FALSE
